@@ -19,6 +19,15 @@ ENGINES = [
 ]
 NOT_APPLICABLE = {}
 CHECKS = {
+    "C14": dict(
+        engine="hist (on zsym) + shadow passes", level="other", design_ref="DESIGN.md section 4 / C14",
+        technique="symbolic execution (zsym/z3) of pass invocations over a model family: pass selector, invocation mode, the strip limit of call_onnx_api, which initializers are graph inputs and ONNX-boundary faults are symbolic; contract oracles; per-path native re-execution",
+        text=("For each of 18 models every built-in pass (24 configurations) is invoked directly (then re-applied to its fixpoint), functionalized and through a PassManager: returned-model identity per in_place/functional, modified=False => byte-identical "
+              "serialization, convergence within #nodes+#values+#functions+2 rounds, the C01 invariant afterwards, topological order kept, result still serializes. For CheckerPass/ShapeInferencePass the size limit above which call_onnx_api strips an initializer "
+              "is a SYMBOLIC integer (every stripped/kept split is a z3-decided path), a symbolic mask lists initializers as graph inputs, a symbolic index makes one initializer a lazy tensor that raises during serialization and a symbolic flag makes the "
+              "ONNX call raise; on every path names, order and identity of initializers, their tensors, graph inputs/outputs, types and shapes must be exactly as before."),
+        note="Trusted: z3; proxies cross-checked per path; the fault-injecting onnx stub delegates to the real functions when no fault is selected. A pass that refuses a model by raising is not judged here (C05 checks what it leaves behind).",
+    ),
     "C05": dict(
         engine="euf (translation validation)", level="translation_validation", design_ref="DESIGN.md section 4 / C05",
         technique="translation validation with uninterpreted functions (z3, EUF): output terms of the model before and after the real pass sequence - as object graph and after a serialize/deserialize round trip - proved equal for ALL inputs and ALL operator semantics; sat answers replayed with onnxruntime / the ONNX checker",
